@@ -113,7 +113,9 @@ SParams == [k \in DOMAIN cfg.params \cup DOMAIN Builtin |->
 \* depends on the context fails: rows are not written (nothing is emitted for them), COPY-in is not started.
 Dead == "ctx" \in DOMAIN cfg /\ cfg.ctx = "dead"
 WithCtx(r) == r @@ [mw |-> [j \in 1..Len(cfg.mw) |-> j], cp |-> cparams, sp |-> SParams,
-                    addr |-> TRUE, tm |-> TRUE, live |-> ~Dead, prevdone |-> TRUE]
+                    addr |-> TRUE, tm |-> TRUE, live |-> ~Dead, prevdone |-> TRUE,
+                    \* AuthenticatedUsername(ctx) is the user of the start-up packet, IsSuperUser(ctx) is never true
+                    au |-> (IF "user" \in DOMAIN cparams THEN cparams["user"] ELSE ""), su |-> FALSE]
 
 EmitOne(alts) == \E e \in alts : emit' = e
 
